@@ -280,9 +280,17 @@ func (prop) Gen(r *rand.Rand, tier string) []core.Case {
 			add("write", "write", "img", core.Hex(img), "start", strconv.Itoa(start), "map", showMap(f))
 		case 9: // area read
 			i := r.Intn(len(f.Areas)+2) - 1
+			if r.Intn(5) == 0 {
+				w := wideIndices(r, len(f.Areas))
+				i = w[r.Intn(len(w))]
+			}
 			add("readarea", "readarea", "img", core.Hex(img), "map", showMap(f), "i", strconv.Itoa(i))
 		case 10: // area write
 			i := r.Intn(len(f.Areas)+2) - 1
+			if r.Intn(5) == 0 {
+				w := wideIndices(r, len(f.Areas))
+				i = w[r.Intn(len(w))]
+			}
 			dl := r.Intn(64)
 			if i >= 0 && i < len(f.Areas) {
 				sz := int(f.Areas[i].Size)
@@ -307,6 +315,14 @@ func (prop) Gen(r *rand.Rand, tier string) []core.Case {
 			add("checksum", "checksum", "img", core.Hex(img), "map", showMap(f))
 		}
 	}
+	// gap closing round 3: decoys at every distance around the map; indices far outside [0, NAreas); by-name calls
+	nnear, nidx := 160, 3
+	if tier == "thorough" {
+		nnear, nidx = 6000, 80
+	}
+	genNearDecoy(r, nnear, add)
+	genAreaIndex(r, nidx, add)
+	genChecksum(r, nnear/4, add)
 	// the fmap command-line tool on images holding exactly one valid map with printable names
 	ncli := 12
 	if tier == "thorough" {
@@ -488,6 +504,10 @@ func (prop) Run(c core.Case) core.Outcome {
 			out.Class = "read:err " + errName(err)
 		}
 		O("read-input-untouched", "same", same(bytes.Equal(img, orig)))
+		// oracles stated on what the image holds (gap3.go): unique map found / duplicated, truncated, absent refused
+		if ic := readOracles(img, readGot(f, m, err), O); c.Kind == "neardecoy" {
+			out.Class += " [" + ic + "]"
+		}
 		if err == nil {
 			// oracle (never a partial map): the map lies inside the image, has NAreas areas
 			end := int(m.Start) + 56 + 42*int(f.NAreas)
@@ -525,6 +545,7 @@ func (prop) Run(c core.Case) core.Outcome {
 		f2, m2, rerr := fmap.Read(bytes.NewReader(fb.b))
 		got := readRes(f2, m2, rerr)
 		M("read-after-write", "read "+core.Hex(fb.b), got)
+		readOracles(fb.b, readGot(f2, m2, rerr), O)
 		if rerr == nil {
 			O("read-write", fmt.Sprintf("ok %d %s", start, showMap(f)), got)
 			out.Class = "write:ok,read:ok"
@@ -541,6 +562,22 @@ func (prop) Run(c core.Case) core.Outcome {
 		i, _ := strconv.Atoi(c.Args["i"])
 		buf, err := f.ReadArea(bytes.NewReader(img), i)
 		req := "readarea " + c.Args["img"] + " " + c.Args["map"] + " " + c.Args["i"]
+		if i < 0 || i >= int(f.NAreas) {
+			// oracle: an index outside [0, NAreas) — however large, whatever its low bits — is refused, nothing is read
+			out.Class = "readarea:range"
+			if i >= 256 || i < -1 {
+				out.Class = "readarea:range-wide"
+			}
+			got := core.ErrClass(err) + " " + core.Hex(buf)
+			O("readarea-out-of-range-refused", "err -", got)
+			if err != nil {
+				M("readarea", req, "err range")
+			} else {
+				M("readarea", req, fmt.Sprintf("ok %s %v", core.Hex(buf), false))
+			}
+			O("readarea-input-untouched", "same", same(bytes.Equal(img, orig)))
+			break
+		}
 		if buf == nil && err != nil {
 			M("readarea", req, "err range")
 			out.Class = "readarea:range"
@@ -572,6 +609,20 @@ func (prop) Run(c core.Case) core.Outcome {
 		fb := &fixedBuf{b: img}
 		err := f.WriteArea(fb, i, data)
 		req := "writearea " + c.Args["img"] + " " + c.Args["map"] + " " + c.Args["i"] + " " + c.Args["data"]
+		if i < 0 || i >= int(f.NAreas) {
+			// oracle: an index outside [0, NAreas) is refused and nothing is written, for every integer
+			out.Class = "writearea:range"
+			if i >= 256 || i < -1 {
+				out.Class = "writearea:range-wide"
+			}
+			O("writearea-out-of-range-refused", "err same", core.ErrClass(err)+" "+same(bytes.Equal(fb.b, orig)))
+			if err != nil {
+				M("writearea", req, "err range")
+			} else {
+				M("writearea", req, "ok "+core.Hex(fb.b))
+			}
+			break
+		}
 		if err != nil {
 			cls := "io"
 			switch {
@@ -595,6 +646,11 @@ func (prop) Run(c core.Case) core.Outcome {
 		O("writearea-confined", "same same true", same(bytes.Equal(fb.b[:lo], orig[:lo]))+" "+
 			same(bytes.Equal(fb.b[hi:], orig[hi:]))+" "+fmt.Sprint(len(data) <= int(a.Size)))
 		O("writearea-stores", core.Hex(data), core.Hex(fb.b[lo:hi]))
+		// sequence: reading the area back returns the data followed by the old rest of the area
+		rest, full := clip(orig, fmap.Area{Offset: a.Offset + uint32(len(data)), Size: a.Size - uint32(len(data))})
+		back, rerr := f.ReadArea(bytes.NewReader(fb.b), i)
+		O("writearea-then-readarea", core.Hex(append(append([]byte(nil), data...), rest...))+" "+fmt.Sprint(full),
+			core.Hex(back)+" "+fmt.Sprint(rerr == nil))
 	case "checksum":
 		f := parseMap(c.Args["map"])
 		h := &recHash{}
@@ -603,6 +659,14 @@ func (prop) Run(c core.Case) core.Outcome {
 		if err != nil {
 			M("checksum", req, "err io")
 			out.Class = "checksum:err"
+			// oracle: an error only when a non-empty static area is not entirely inside the image
+			just := false
+			for _, a := range f.Areas {
+				if a.Flags&fmap.FmapAreaStatic != 0 && a.Size != 0 && uint64(a.Offset)+uint64(a.Size) > uint64(len(img)) {
+					just = true
+				}
+			}
+			O("checksum-error-justified", "true", fmt.Sprint(just))
 			break
 		}
 		M("checksum", req, "ok "+core.Hex(sum))
@@ -625,6 +689,8 @@ func (prop) Run(c core.Case) core.Outcome {
 		}
 		O("checksum-static", core.Hex(want), core.Hex(sum))
 		out.Trivial = len(want) == 0
+	case "readbyname", "writebyname":
+		runByName(c, img, orig, &out)
 	default:
 		panic("unknown op " + c.Op)
 	}
